@@ -115,11 +115,33 @@ def child_sphere(S, k):
     return S.obj(VolSphere, center=c, radius=r, sdf=_handle(SDF_SPHERE(*[R(x) for x in c.items], R(r))))
 
 
-def leave_setup(nchildren):
+SFI_KEY = f"{VO}:VolSphereFrustumConeIntersection._get_volume"
+SFI_ASSUMED = "assumed-taper-half:" + SFI_KEY  # registry slot of the ASSUMED contract (not found by call-site lookup)
+
+
+class _Scoped(dict):
+    """registry view used while ONE carrier variant is verified: `key` resolves to the given contract instead"""
+
+    def __init__(self, base, key, contract):
+        super().__init__(base)
+        self[key] = contract
+
+
+def leave_setup(nchildren, equal_radii=False):
     def setup(S):
+        eng = S.eng
+        base = getattr(eng, "_c14_base_registry", None) or eng.registry
+        eng._c14_base_registry = base
+        # general radii: one end of every frustum tapers away from its sphere; that half of the sphere/frustum intersection
+        # is only ASSUMED (see register).  equal radii: nothing tapers, the verified contract is used.
+        eng.registry = base if equal_radii else _Scoped(base, SFI_KEY, base[SFI_ASSUMED])
         t = sym_tree(S, "t")
         n = node_obj(S, t)
         ch = PList([child_sphere(S, k) for k in range(nchildren)])
+        if equal_radii:
+            rn = node_geom(n)[1]
+            for c in ch.items:
+                S.assume(R(c.fields["radius"]) == rn)
         acc, vol = S.int("accuracy"), S.real("volume0")
         closure = dict(accuracy=acc, volume=vol)
         return dict(n=n, children=ch, __closure__=closure, __ghost__=dict(closure=closure, volume0=vol, accuracy=acc))
@@ -186,12 +208,12 @@ def leave_hint(E, vars):
     for k, c in enumerate(vars["children"].items):
         cc, rc = sphere_geom(c)
         d = centre_distance(E, cn, cc)
-        mark = len(E.pc)
-        E.assume(VFR(rn, rc, d) == V_fr_tot(rn, rc, d))
-        _use(E, "frustum-closed-form-is-the-integral-form", rn, rc, d)
-        E.prove(f"_get_volume_frustum_cone.<locals>.leave/step/frustum-{k}-closed-form-is-the-integral-form",
-                z3.RealVal(1) / 3 * PI * d * (rn * rn + rn * rc + rc * rc) == VFR(rn, rc, d), "annotation")
-        del E.pc[mark:mark + 2]  # keep the proved consequence, drop the (definitional) equation again
+        before = list(E.pc)
+        E.assume(VFR(rn, rc, d) == V_fr_tot(rn, rc, d))  # definition of the ghost name
+        _use(E, "frustum-closed-form-is-the-integral-form", rn, rc, d)  # instance of the abstract lemma (its own obligation)
+        step = z3.RealVal(1) / 3 * PI * d * (rn * rn + rn * rc + rc * rc) == VFR(rn, rc, d)
+        E.prove(f"_get_volume_frustum_cone.<locals>.leave/step/frustum-{k}-closed-form-is-the-integral-form", step, "annotation")
+        E.pc[:] = before + [step]  # keep the proved consequence only; the two nonlinear equations leave the context again
 
 
 def leave_returns_sphere(E, v, o):
@@ -233,15 +255,22 @@ def sfi_setup(end, taper):
     return setup
 
 
-def sfi_pre(E, v, o):
-    """the sphere is centred on one end of the frustum with that end's radius (exactly), positive radii, distinct end centres"""
-    s, f = v["self"].fields["obj1"], v["self"].fields["obj2"]
-    cs, rs = sphere_geom(s)
-    c1, c2 = [R(x) for x in f.fields["c1"].items], [R(x) for x in f.fields["c2"].items]
-    r1, r2 = R(f.fields["r1"]), R(f.fields["r2"])
-    at1 = z3.And(rs == r1, *[a == b for a, b in zip(cs, c1)])
-    at2 = z3.And(rs == r2, *[a == b for a, b in zip(cs, c2)])
-    return z3.And(z3.Or(at1, at2), r1 > 0, r2 > 0, d2(c1, c2) > 0)
+def _sfi_pre(widening_only):
+    def pre(E, v, o):
+        """the sphere is centred on one end of the frustum with that end's radius (exactly), positive radii, distinct end centres
+        [verified contract only: and the frustum does not taper away from the sphere's end]"""
+        s, f = v["self"].fields["obj1"], v["self"].fields["obj2"]
+        cs, rs = sphere_geom(s)
+        c1, c2 = [R(x) for x in f.fields["c1"].items], [R(x) for x in f.fields["c2"].items]
+        r1, r2 = R(f.fields["r1"]), R(f.fields["r2"])
+        at1 = z3.And(rs == r1, *[a == b for a, b in zip(cs, c1)])
+        at2 = z3.And(rs == r2, *[a == b for a, b in zip(cs, c2)])
+        cl = [z3.Or(at1, at2), r1 > 0, r2 > 0, d2(c1, c2) > 0]
+        if widening_only:
+            cl.append(r1 + r2 - rs >= rs)
+        return z3.And(*cl)
+
+    return pre
 
 
 def sfi_post(E, v, o):
@@ -265,23 +294,59 @@ def sfi_hint(E, vars):
     E.prove("VolSphereFrustumConeIntersection._get_volume/step/height-is-the-centre-distance", centre_distance(E, c1, c2) == R(vars["hh"]), "annotation")
 
 
+def _make_fuv_usable_at_call_sites(Rg):
+    """C13's contract of find_unit_vector_on_plane states its postcondition through a clause that reads the carrier's local `r`
+    (proof hints); at a CALL SITE there is no such local.  Same contract object, same clause when the carrier is verified;
+    at call sites the plain statement (unit vector orthogonal to the argument) is assumed."""
+    c = Rg.get(f"{C13.SG}:find_unit_vector_on_plane")
+    if c is None or getattr(c, "_c14_wrapped", False):
+        return
+    lab, orig = c.ensures[0]
+
+    def clause(E, v, o):
+        if "r" in v:
+            return orig(E, v, o)
+        u, n = [R(x) for x in v["result"].items], [R(x) for x in o["normal_vec3"].items]
+        dot = lambda a, b: sum((x * y for x, y in zip(a, b)), z3.RealVal(0))
+        return z3.And(dot(u, u) == 1, dot(u, n) == 0)
+
+    c.ensures[0] = (lab, clause)
+    c._c14_wrapped = True
+
+
 def register(Rg: Registry):
+    _make_fuv_usable_at_call_sites(Rg)
     Rg.add(f"{VOL}:_get_volume_frustum_cone.<locals>.leave", prop="C14",
-           variants={f"{k}-children": leave_setup(k) for k in (0, 1, 2)},
+           variants={**{f"{k}-children": leave_setup(k) for k in (0, 1, 2, 3)},
+                     **{f"{k}-children/equal-radii": leave_setup(k, True) for k in (1, 2)}},
            requires=[("node-in-range-levels-1-to-9-and-from-level-3-positive-radii-distinct-centres", leave_pre)],
            ensures=[("volume-grows-by-the-nodes-inclusion-exclusion-share", leave_delta),
                     ("returns-the-nodes-sphere", leave_returns_sphere),
                     ("children-untouched", leave_children_kept)],
            options=dict(hints={"post/volume-grows-by-the-nodes-inclusion-exclusion-share": leave_hint}),
-           notes="children lists of exactly 0, 1, 2 spheres (variants), everything else symbolic (accuracy 1..9 symbolic)")
+           notes="children lists of exactly 0, 1, 2, 3 spheres (variants), everything else symbolic (accuracy 1..9 symbolic). "
+                 "Variants `k-children`: general radii, levels >= 3 RELATIVE to the assumed taper half of the sphere/frustum "
+                 "intersection; variants `k-children/equal-radii`: cylinders, no assumed contract below level 5.")
 
-    Rg.add(f"{VO}:VolSphereFrustumConeIntersection._get_volume", prop="C14",
-           variants={f"sphere-at-{e}-end/{'taper' if t else 'widening'}": sfi_setup(e, t) for e in ("c1", "c2") for t in (False,)},
-           requires=[("concentric-with-one-end", sfi_pre)],
+    # sphere ∩ frustum, sphere concentric with one end.  VERIFIED where the frustum does not taper away from the sphere's end
+    # (C13 proves that branch of calc_concentric_intersect_volume; here: the dispatch of _get_volume on top of it, modular).
+    Rg.add(SFI_KEY, prop="C14",
+           variants={f"sphere-at-{e}-end/widening": sfi_setup(e, False) for e in ("c1", "c2")},
+           requires=[("concentric-with-one-end-and-no-taper-away-from-it", _sfi_pre(True))],
            returns="real",
            ensures=[("equals-integral-of-the-smaller-profile", sfi_post)],
            lemmas=[sfi_reveal],
-           options=dict(exact_tolerances=True, globals_override={"eps": 0}, hints={"post/equals-integral-of-the-smaller-profile": sfi_hint}))
+           options=dict(exact_tolerances=True, globals_override={"eps": 0}, hints={"post/equals-integral-of-the-smaller-profile": sfi_hint}),
+           notes="taper branch (other end thinner than the sphere's end) NOT reached deductively: see the assumed contract below")
+    # ASSUMED contract (never verified) = the same clause without the no-taper restriction.  Only the `leave` variants with
+    # general radii use it (registry scoped in leave_setup).  What is assumed beyond the verified half: the taper branch of
+    # calc_concentric_intersect_volume (random unit vector, sphere/line intersection, projection) returns V_sf; its scalar
+    # algebra is lemma `taper-branch-formulas-give-V_sf/*`, its vector geometry is covered by the bounded stand-ins C13/C14 only.
+    from pyvc.spec import Contract
+
+    Rg[SFI_ASSUMED] = Contract(SFI_KEY, prop="C14", trusted=True, returns="real",
+                               requires=[("concentric-with-one-end", _sfi_pre(False))],
+                               ensures=[("equals-integral-of-the-smaller-profile", sfi_post)])
 
     # ASSUMED contract (never verified): Monte-Carlo volume of a generic SDF object.  "Returns the measure of the set the
     # SDF handle denotes" — sampling error is ignored, so levels >= 5 with >= 2 children are proved RELATIVE to this idealisation.
@@ -370,6 +435,18 @@ def lemmas():
     out.append(("sf-frustum-profile-is-the-smaller-one-before-the-split-point", one + [z >= 0, z <= m], f1(z) <= s1(z)))
     out.append(("sf-sphere-profile-is-the-smaller-one-after-the-split-point", one + [z >= m, z <= top, m < top], s1(z) <= f1(z)))
     out.append(("sf-without-taper-is-the-spec-of-C13", one + [r2 >= r1], V_sf(r1, r2, h) == C13.V_sf_widening(r1, h)))
+
+    # --- scalar algebra of the taper branch of calc_concentric_intersect_volume (backs the ASSUMED half of the intersection contract):
+    # with t* the larger root of the sphere/slant-line quadratic, h1 = t* h, r3 = r1 + t* (r2 - r1), the code's case formulas give V_sf
+    cap = lambda r, hh: PI * hh * hh * (3 * r - hh) / 3
+    frc = lambda ra, rb, hh: z3.RealVal(1) / 3 * PI * hh * (ra * ra + ra * rb + rb * rb)
+    ts = 2 * r1 * (r1 - r2) / (h * h + (r2 - r1) * (r2 - r1))
+    h1, r3 = ts * h, r1 + ts * (r2 - r1)
+    tap = one + [r2 < r1]
+    out.append(("taper-branch-formulas-give-V_sf/frustum-inside-the-sphere", tap + [ts > 1], frc(r1, r2, h) == V_sf(r1, r2, h)))
+    out.append(("taper-branch-formulas-give-V_sf/frustum-higher-than-the-sphere", tap + [ts <= 1, h >= r1], cap(r1, r1 - h1) + frc(r1, r3, h1) == V_sf(r1, r2, h)))
+    out.append(("taper-branch-formulas-give-V_sf/frustum-lower-than-the-sphere", tap + [ts <= 1, h < r1],
+                cap(r1, r1 - h1) + frc(r1, r3, h1) - cap(r1, r1 - h) == V_sf(r1, r2, h)))
 
     # --- sub-lemma: the lens of the two end spheres lies inside the frustum (holds for every spacing d > 0)
     any_d = [rp > 0, rc > 0, d > 0, z >= 0, z <= d]
